@@ -281,6 +281,16 @@ Outcome execute(const Plan& plan) {
       }
       try {
         auto conc = sched::runParked(mk(obsConc), schedule, false);
+        // the replay plan lists the preemptions that actually fired, in the order they fired (the others
+        // had no effect): a prefix of that list is "the same run, serial from there on"
+        derived.ops.erase(std::remove_if(derived.ops.begin(), derived.ops.end(), [](const Op& o) { return o.name() == "pre"; }),
+                          derived.ops.end());
+        for (uint32_t id : conc.firedOrder) {
+          const auto& p = schedule[id];
+          Op o = mkop("pre");
+          o.set("t", p.task).setu("at", p.at).set("to", p.to).setu("q", p.quantum);
+          derived.ops.push_back(o);
+        }
         raise(conc, "interleaved");
         for (size_t i = 0; i < n; i++) {
           if (conc.tasks[i].events != serial.tasks[i].events)
